@@ -105,6 +105,27 @@ def section10():
                "first reported only as `no-failing-input-found` and now with a failing input: C01-1 (per-axis width tuples in the KB dot test), "
                "C15-3 (PDHG families with saturating prox on both sides), C13-2 (operators returning their argument), "
                "C16-2 (apps receive the caller's arrays, which are reused and compared).\n")
+    out.append("**Round 3 (this session).** 51 further changes (`Cxx-r3-k`) with a different flavour — interactions of two options, "
+               "boundary conditions at exact ties, precision / dtype paths, error handling, `__init__` vs `_apply` inconsistencies, "
+               "order of operations on one object, helper-module changes, argument aliasing. First measurement: 10 were missed and 9 "
+               "more were reported only as `no-failing-input-found`; together with 12 such leftovers of rounds 1-2 they were given to "
+               "hardening agents who had to widen the CLASS of inputs the check explores (storage dtypes, memory layouts, magnitudes, "
+               "argument forms, histories of live objects, call sequences against fresh-process references, tolerances tied to measured "
+               "accuracy) without special-casing a patch and keep seeds 0..9 quiet on the unchanged tree. Final matrix over all 163 "
+               "changes (table above): 161 are reported with a concrete failing input by their own property's quick check; C16-r3-2 "
+               "(LinearLeastSquares GradientMethod step from A.N alone) breaks 8 theorems of the generated set-up (C14 / C16Recon) but the "
+               "C16 search finds no failing input within its iteration budget (`no-failing-input-found`; the C14 check finds one); "
+               "C16-r3-3 (prox.Conj called with alpha instead of 1/alpha, visible in TotalVariationRecon only with the `sigma=` / `tau=` "
+               "keywords, which C16 does not quantify over) is not seen by the C16 check and is caught with failing inputs by the "
+               "properties that own the code, C11 (conj_moreau and the Conj streams) and C14. 23 seeded patches were re-based after "
+               "later `fix:` commits touched the same lines (same change, demo re-verified both ways).\n")
+    out.append("**Behaviour-preserving changes** (`harmless/`, 60 refactorings by independent agents, each with an equivalence program "
+               "whose SHA-256 over all results is identical on the clean and the patched checkout; `harmless/RESULTS.md`): 19 leave the "
+               "check quiet, 41 make a translate / theorem / build obligation fail and are reported as `no-failing-input-found` naming "
+               "that obligation (mostly the fail-closed translators: an extracted helper, a hoisted temporary or a positional -> keyword "
+               "respelling is outside the accepted subset), and NONE produces a failing input. One first appeared to (C15-1): the x4 "
+               "search budget of a broken run reached an SDMM instance whose only constraint matrix was all zeros - the recorded SDMM "
+               "finding, not the refactoring - which is why that class is now classified with the finding's key.\n")
     out.append("The builders' own hand-made breaking edits (8–27 per property, the **X** lists of §3 and subtler ones) are listed in "
                "their reports; the pattern is the same: edits inside translator-covered code break named theorems or the translate "
                "obligation *and* are found by the search; edits in hand-modelled code are found by correspondence + search; edits that "
